@@ -68,6 +68,11 @@ func (w *Worker) Mine(ctx context.Context, data []byte, targetScore float64) (ui
 
 	// compute the minimum numbers of trailing zeros required to get a PoW score ≥ targetScore
 	targetZeros := uint(math.Ceil(math.Log(float64(len(data)+nonceBytes)*targetScore) / ln3))
+	// the conversion above is only defined for non-negative values:
+	// a target score of at most 1/length (including zero and negative scores) is met by every nonce
+	if !(float64(len(data)+nonceBytes)*targetScore > 1) {
+		targetZeros = 0
+	}
 
 	workerWidth := math.MaxUint64 / uint64(w.numWorkers)
 	for i := 0; i < w.numWorkers; i++ {
